@@ -4,6 +4,7 @@ for `leafEval E`, the invariant `CompLeaf E` and python leaves of the exact shap
 -/
 import PoetryVerif.Proofs.MarkerProjReduce
 import PoetryVerif.Proofs.PyConvLeaf
+import PoetryVerif.Proofs.PyConvAllows
 
 set_option linter.unusedSimpArgs false
 set_option linter.unusedVariables false
@@ -16,35 +17,34 @@ theorem convKey_of_isPyName {n : String} (h : isPyName n = true) : convKey n = p
     simpa [isPyName, Gen.pythonVersionMarkers] using h
   rcases this with rfl | rfl <;> decide
 
-/-- C12's two answers at the probe, as `reduce_by_python_constraint` uses them: a yes of `allows_all` and a no of
-`allows_any` against the project's Python range `pc` are sound at the interpreter `py` that `pc` admits -/
-def AllowsSound (pc : VC) (py : Version) : Prop :=
-  (∀ c : VC, c.allowsAll pc = .ok true → c.allowsPlain py = true) ∧
-  (∀ c : VC, c.allowsAny pc = .ok false → c.allowsPlain py = true → False)
-
-/-- **`ReduceCtx` for poetry's own evaluation**: what C11 contributes is discharged — `pyConstraint_exact` for the
-python leaves of the input (`leafClause_of_comp`), `createNested_exact` through `parse_marker`
-(`createNested_poetry`), canonical names.  What remains: the leaf specification `S`, `ReparseNames`, C12's two
-answers at the probe (`AllowsSound`), and `pyConstraint_exact` for the python-only sub-unions the `MarkerUnion`
-shortcut builds (`hlow`). -/
+/-- **`ReduceCtx` for poetry's own evaluation**: what C11 and C12 contribute is discharged — `pyConstraint_exact`
+for the python leaves of the input (`leafClause_of_comp`, results in C05's regular setting by `ItemShape`),
+`createNested_exact` through `parse_marker` (`createNested_poetry`), canonical names, and C12's two answers at the
+probe for constraints of the regular setting (`allowsAll_py`, `allowsAny_py`).  What remains: the leaf specification
+`S`, `ReparseNames`, that the project's range is a well-formed constraint (`hpcok`, true of what `parse_constraint`
+returns), and `pyConstraint_exact` for the python-only sub-unions the `MarkerUnion` shortcut builds (`hlow`). -/
 theorem reduceCtx_poetry (E : Env) (X Y Z : Nat) (hE : EnvPy E X Y Z) (S : LeafSpec (leafEval E) (CompLeaf E))
-    (HR : ReparseNames) (pc : VC) (hd : PyDomVC pc = true) (hpc : pc.allowsPlain (pyV X Y Z) = true)
-    (hAS : AllowsSound pc (pyV X Y Z))
+    (HR : ReparseNames) (pc : VC) (hd : PyDomVC pc = true) (hpcok : PyVCok pc)
+    (hpc : pc.allowsPlain (pyV X Y Z) = true)
     (hlow : ∀ (u : M) (g : VC), M.Good (CompLeaf E) u → (∀ n ∈ M.vars u, n ∈ pyNames) → gpc u = .ok g →
-      g.allowsPlain (pyV X Y Z) = true → M.sem (leafEval E) u = true) :
-    ReduceCtx (leafEval E) (CompLeaf E) PyShaped pc (pyV X Y Z) where
+      PyVCok g ∧ (g.allowsPlain (pyV X Y Z) = true → M.sem (leafEval E) u = true)) :
+    ReduceCtx (leafEval E) (CompLeaf E) PyShaped PyVCok pc (pyV X Y Z) where
   spec := S
   canon := fun l hl => by obtain ⟨_, _, _, _, hc⟩ := hl; exact hc
   reparse := HR
   gpcLeaf_exact := fun l c hg hp hn hgl => by
-    obtain ⟨s, item, rfl, hop, hitem, ⟨vc, hvc, hb⟩, _⟩ :=
+    obtain ⟨s, item, rfl, hop, hitem, ⟨vc, hvc, hb⟩, hshape⟩ :=
       leafClause_of_comp E X Y Z hE l hg hp (convKey_of_isPyName hn)
     rw [gpcLeaf_single s item hn hop hitem, hvc] at hgl
     injection hgl with hgl; subst hgl
-    exact hb
+    refine ⟨?_, hb⟩
+    obtain ⟨hok, hstar, vc', hp', hvc'⟩ := hshape
+    have hne : item ≠ "*" := by intro e; apply hstar; rw [e]; rfl
+    rw [VParser.parseMarkerVersionConstraint, parseConstraintAux_single item true hok.nosep hne, hp'] at hvc
+    injection hvc with hvc; subst hvc; exact hvc'
   gpc_lower := hlow
-  allowsAll_sound := hAS.1
-  allowsAny_sound := hAS.2
+  allowsAll_sound := fun c hw h => allowsAll_py c pc hw hpcok X Y Z h hpc
+  allowsAny_sound := fun c hw h hcp => allowsAny_py c pc hw hpcok X Y Z h ⟨hcp, hpc⟩
   nested_true := fun txt pm ht hm => by
     have := createNested_poetry E S pc hd X Y Z hE txt pm ht hm
     exact ⟨this.1, by rw [this.2.1, hpc]⟩
